@@ -7,6 +7,7 @@ import (
 	"os"
 	"runtime"
 	"runtime/debug"
+	"slices"
 	"sort"
 	"strconv"
 	"strings"
@@ -75,7 +76,7 @@ func (s *schedSim) need(th *simThread) (string, int) {
 		n, _ := strconv.Atoi(l[len("before-lock "):])
 		return "t", n
 	}
-	if l == "commit-before-rootlock" || (th.kind == "register" && l == "start") {
+	if l == "commit-before-rootlock" || (th.kind == "register" && l == "register-before-lock") {
 		return "mu", 0
 	}
 	return "", 0
@@ -105,10 +106,10 @@ func (s *schedSim) step(i int) {
 		n, _ := strconv.Atoi(l[len("before-lock "):])
 		s.owner[n] = i
 	}
-	if l == "commit-before-rootlock" || (th.kind == "register" && l == "start") {
+	if l == "commit-before-rootlock" || (th.kind == "register" && l == "register-before-lock") {
 		s.mu = i
 	}
-	if l == "commit-stored" || l == "register-stored" || (th.kind == "register" && l == "register-locked" && len(th.labels) == 2) {
+	if l == "commit-stored" || l == "register-stored" || (th.kind == "register" && l == "register-locked" && len(th.labels) == 3) {
 		s.mu = -1
 	}
 	th.pc++
@@ -145,10 +146,10 @@ func genSched(cfg Config, emit func(string, bool, []string)) {
 				if r.IntN(3) == 0 {
 					// a registration rejected for its duplicate name
 					add("register dup")
-					sim.threads = append(sim.threads, &simThread{kind: "register", labels: []string{"start", "register-locked"}})
+					sim.threads = append(sim.threads, &simThread{kind: "register", labels: []string{"start", "register-before-lock", "register-locked"}})
 				} else {
 					add("register")
-					sim.threads = append(sim.threads, &simThread{kind: "register", labels: []string{"start", "register-locked", "register-stored"}})
+					sim.threads = append(sim.threads, &simThread{kind: "register", labels: []string{"start", "register-before-lock", "register-locked", "register-stored"}})
 				}
 				nreg++
 				continue
@@ -283,6 +284,10 @@ type schedThread struct {
 	handle       statedb.WriteTxn
 	specAtCommit string
 	started      bool
+	mustSee      int         // tables registered when the last table lock was taken
+	specAtLoad   []specTable // committed state when the root was loaded
+	otherRev     map[int]uint64
+	otherCnt     map[int]int
 }
 
 type specTable struct {
@@ -511,6 +516,19 @@ func (e *schedExec) threadBody(tid int) {
 	}
 	wtxn := e.db.WriteTxn(metas...)
 	th.handle = wtxn // keep it reachable: an unfinished handle's finalizer panics
+	// every table registered before the locks were taken is readable through the
+	// transaction, at the state the root had when it was loaded
+	th.otherRev, th.otherCnt = map[int]uint64{}, map[int]int{}
+	for t := 0; t < th.mustSee && t < len(e.tables); t++ {
+		if slices.Contains(th.tables, t) {
+			continue
+		}
+		tbl := e.tables[t]
+		th.otherRev[t] = tbl.Revision(wtxn)
+		if o, _, ok := tbl.Get(wtxn, ctrIndex.Query("ctr")); ok {
+			th.otherCnt[t] = o.Val
+		}
+	}
 	for _, t := range th.tables {
 		tbl := e.tables[t]
 		th.seenRev[t] = tbl.Revision(wtxn)
@@ -572,7 +590,7 @@ func (e *schedExec) enabledSet() []int {
 				ok = false
 			}
 		}
-		if th.parked == "commit-before-rootlock" || (th.kind == "register" && th.parked == "start") {
+		if th.parked == "commit-before-rootlock" || (th.kind == "register" && th.parked == "register-before-lock") {
 			if _, held := e.holder[-1]; held {
 				ok = false
 			}
@@ -790,7 +808,16 @@ func (e *schedExec) onEvent(o *Out, tid int, th *schedThread, prev, label string
 		e.holder[-1] = tid
 	case label == "commit-rootunlocked":
 		delete(e.holder, -1)
+	case label == "wtxn-locked":
+		th.mustSee = len(e.spec)
+	case label == "wtxn-root-loaded":
+		th.specAtLoad = append([]specTable{}, e.spec...)
 	case label == "ops-done":
+		for t, rev := range th.otherRev {
+			if t < len(th.specAtLoad) && (rev != th.specAtLoad[t].rev || th.otherCnt[t] != th.specAtLoad[t].cnt) {
+				o.Fail("C05", "writer-reads-other-table-wrongly", nil, fmt.Sprintf("thread %d reads table %d (not held) through its write transaction as %d @%d, the committed state when it loaded the root was %d @%d", tid, t, th.otherCnt[t], rev, th.specAtLoad[t].cnt, th.specAtLoad[t].rev))
+			}
+		}
 		// the writer saw every write committed to its tables earlier
 		for _, t := range th.tables {
 			if t < len(e.spec) && (th.seenRev[t] != e.spec[t].rev || th.seenCnt[t] != e.spec[t].cnt) {
